@@ -3,7 +3,7 @@
 import json, os
 ROOT = os.path.dirname(os.path.dirname(os.path.abspath(__file__)))
 
-HOOK_COMMITS = ["9aaf85a"]
+HOOK_COMMITS = ["9aaf85a", "64428c4"]
 
 # id -> (engine, category, text, note, technique)
 CHECKS = {
@@ -23,9 +23,24 @@ CHECKS = {
   "ZSem models frames as heap objects with parent pointers and closures capturing their frame of creation; TLC validates programs over a tiny name pool (shadowing/capture collisions in almost every program; closures returned, stored, passed, collected in loops, called after their creator returned, tail calls) run on the real interpreter.",
   "as C02; the scoping grammar is generated randomly (seeded), not exhaustively",
   "TLA+ reference semantics (ZSem); TLC trace validation of recorded executions"),
+ "C04": ("Session+Bytecode", "model_checking",
+  "SessionTrace: the four stack depths of a long-lived real interpreter are validated by TLC around every evaluation of sequences over a catalogue of ~85 surface-language forms (rest <<0,1,0,0>>, empty evaluation is nil, piecewise = together, 200-1000 repetitions without growth). Bytecode: the real compiler's listings (catalogue, generated programs, tail shapes) are executed abstractly by TLC along all control paths (no underflow, one value and no open scope at every return/end, exact state at self tail calls, bounded height).",
+  "depths read through the verif accessor; Bytecode.tla's per-instruction effect table is hand-written from vm.go; failing forms are C05's",
+  "TLA+ spec (SessionTrace, Bytecode); TLC trace validation + TLC exploration of all control paths of dumped bytecode"),
+ "C07": ("NumTower", "exploration",
+  "Every pair of a 92-value boundary grid (min/max int64/uint64, 2^53+-1, 2^63, +-0, subnormals, +-Inf, NaNs) in both orders under 11 operators and all 16 type combinations, plus seeded random 64-bit patterns, evaluated on the real interpreter; TLC validates every recorded result against NumTower!Expect and the trichotomy/antisymmetry laws on the recorded results; the NumTower definitions are model-checked exhaustively against integer/rational arithmetic at 6/8-bit word size.",
+  "float64 + - * / results delegated (math/big, cross-checked); uint64 mixed with int/char, mod values, min/-1 and int-vs-char order beyond the laws are not judged (statement silent); the 64-bit instance shares the module audited at 6/8 bits",
+  "TLA+ spec (NumTower); TLC exhaustive audit at small width + TLC trace validation of recorded evaluations"),
+ "C09": ("ZSem+TailTrace", "model_checking",
+  "All nestings (depth 2, thorough 3) of the 8 tail contexts x 5 body features: n=0..3 with traced effects (incl. what closures of earlier iterations return) validated by TLC against ZSem, which has no tail-call optimisation; n=10..10^4 (some 10^5) with the high-water marks of the data/scope/address stacks sampled at every VM step validated against TailTrace (independent of n, run completes); the real bytecode of every shape is checked by Bytecode.tla (TailExact) under C04.",
+  "space is judged in VM stack entries via the verif step hook; shapes are the enumerated ones",
+  "TLA+ reference semantics (ZSem) + TailTrace; TLC trace validation of recorded executions"),
 }
 
 ENGINES = [
+ {"name": "Session+Bytecode", "path": "spec/SessionTrace.tla spec/Bytecode.tla", "serves_properties": ["C04"], "kind_free_text": "TLA+ trace specification of the interpreter's rest state + abstract interpreter of dumped bytecode, TLC"},
+ {"name": "NumTower", "path": "spec/NumTower.tla spec/MCNumTower.tla spec/NumTrace.tla", "serves_properties": ["C07"], "kind_free_text": "TLA+ functional spec on limb sequences + trace specification, TLC"},
+ {"name": "ZSem+TailTrace", "path": "spec/ZSem.tla spec/SemTrace.tla spec/TailTrace.tla", "serves_properties": ["C09"], "kind_free_text": "TLA+ reference semantics + space law, TLC"},
  {"name": "ZSem", "path": "spec/ZSem.tla spec/SemTrace.tla", "serves_properties": ["C02", "C03"], "kind_free_text": "TLA+ definitional interpreter (recursive operators) + trace specification, TLC"},
  {"name": "HashMap", "path": "spec/HashMap.tla spec/HashImpl.tla spec/MCHash.tla spec/HashTrace.tla", "serves_properties": ["C14"], "kind_free_text": "TLA+ state machine + refinement + trace specification, TLC"},
  {"name": "Symtab", "path": "spec/Symtab.tla spec/SymtabTrace.tla", "serves_properties": ["C19"], "kind_free_text": "TLA+ state machine + trace specification, TLC"},
